@@ -573,8 +573,8 @@ func c10Sequence(c *core.Ctx, i int, r *core.Rng, res *core.Result) *core.Result
 			break
 		}
 	}
-	first := []string{"(togo r)", "(_method r Describe:)", "(_method (c10outer) DescribeArg: r)", "(_method (c10outer) Echo: r)", "(_method (c10outer p:r.p sh:r.sh ps:r.ps) Describe:)"}[r.N(5)]
-	if strings.Contains(first, "r.p") && (v1.parts["p"] == "" || v1.parts["sh"] == "" || v1.parts["ps"] == "") {
+	first := []string{"(togo r)", "(_method r Describe:)", "(_method (c10outer) DescribeArg: r)", "(_method (c10outer) Echo: r)", "(_method (c10outer p:(hget r p:) sh:(hget r sh:) ps:(hget r ps:)) Describe:)"}[r.N(5)]
+	if strings.Contains(first, "(hget r p:)") && (v1.parts["p"] == "" || v1.parts["sh"] == "" || v1.parts["ps"] == "") {
 		first = "(togo r)"
 	}
 	text := v1.defs + "(def r " + v1.literal + ")\n" + first + "\n"
